@@ -3,6 +3,7 @@ package main
 import (
 	"fmt"
 	"go/ast"
+	"go/constant"
 	"go/token"
 	"go/types"
 	"strings"
@@ -80,6 +81,90 @@ func checkC17(w *World, r *Report) {
 			}
 		}
 		r.Check(ok, "R17.3", "list.Validate validates the key token", fd.Pos(), "top-level `if err := key.Validate(ctx, path, {p[0]}); err != nil { return err }`", "the key value is validated only on some paths (e.g. only when the path ends on the entry): a corrupted key in a longer path is accepted")
+	})
+
+	r.Rule("R17.5", "an error names its element whenever there is one: each error constructor in schema/errors.go that sets Path from its path argument does so unconditionally or under a guard that is true for every non-empty path", 6)
+	r.guard("R17.5", func() {
+		sp := w.Pkg("schema")
+		n := 0
+		for _, fd := range funcDecls(sp) {
+			if fd.Body == nil || !strings.HasSuffix(w.Fset.Position(fd.Pos()).Filename, "/errors.go") {
+				continue
+			}
+			// parameter named path of type []string
+			var pathObj types.Object
+			for _, fl := range fd.Type.Params.List {
+				for _, nm := range fl.Names {
+					if t := sp.TypesInfo.TypeOf(fl.Type); t != nil && t.String() == "[]string" {
+						pathObj = sp.TypesInfo.Defs[nm]
+					}
+				}
+			}
+			if pathObj == nil {
+				continue
+			}
+			// statements `x.Path = pathutil.Pathstr(path)` at top level or inside an if
+			check := func(cond ast.Expr, pos token.Pos) {
+				n++
+				name := funcDeclName(fd)
+				if cond == nil {
+					r.OK("R17.5", name+" sets Path", pos, "unconditionally")
+					return
+				}
+				ok, bad := true, ""
+				func() {
+					defer func() {
+						if x := recover(); x != nil {
+							if u, isU := x.(undecided); isU {
+								ok, bad = false, u.why
+								return
+							}
+							panic(x)
+						}
+					}()
+					for _, k := range []int64{1, 2, 3, 9} {
+						env := &guardEnv{p: sp, opaque: map[string]constant.Value{"len(" + pathObj.Name() + ")": constant.MakeInt64(k)}}
+						if !env.cond(cond) {
+							ok, bad = false, fmt.Sprintf("a path of %d element(s) is not recorded", k)
+						}
+					}
+				}()
+				r.Check(ok, "R17.5", name+" sets Path", pos, "whenever the path is non-empty", "the error's Path is set only when `"+types.ExprString(cond)+"` ("+bad+"): the rejection no longer identifies the offending element")
+			}
+			isPathAssign := func(s ast.Stmt) bool {
+				as, ok := s.(*ast.AssignStmt)
+				if !ok || len(as.Lhs) != 1 {
+					return false
+				}
+				se, ok := as.Lhs[0].(*ast.SelectorExpr)
+				if !ok || se.Sel.Name != "Path" {
+					return false
+				}
+				uses := false
+				ast.Inspect(as.Rhs[0], func(x ast.Node) bool {
+					if id, ok := x.(*ast.Ident); ok && sp.TypesInfo.Uses[id] == pathObj {
+						uses = true
+					}
+					return true
+				})
+				return uses
+			}
+			for _, st := range fd.Body.List {
+				if isPathAssign(st) {
+					check(nil, st.Pos())
+				}
+				if is, ok := st.(*ast.IfStmt); ok && is.Init == nil {
+					for _, s2 := range is.Body.List {
+						if isPathAssign(s2) {
+							check(is.Cond, s2.Pos())
+						}
+					}
+				}
+			}
+		}
+		if n == 0 {
+			panic(undecided{"no error constructor sets Path from a path argument"})
+		}
 	})
 
 	r.Rule("R17.4", "the error for a rejected path encodes the walked elements unambiguously: every error constructor that takes a path renders it with pathutil.Pathstr (percent-encoding), never by joining the raw tokens", 8)
